@@ -100,25 +100,95 @@ def scope_bindings(fn: ast.AST, is_nested: bool) -> Tuple[List[str], List[str]]:
                     break
                 if isinstance(p, (ast.Assign, ast.AnnAssign, ast.AugAssign, ast.NamedExpr)):
                     break
-            events.append((idx, 0, n.id, kind))
+            events.append((idx, 0, n.id, kind, (n, p if id(p) != id(n) else None)))
         elif isinstance(n, ast.ExceptHandler) and n.name:
-            events.append((idx, 0, n.name, "except"))
+            events.append((idx, 0, n.name, "except", (n, n)))
         elif isinstance(n, (ast.FunctionDef, ast.AsyncFunctionDef)):
-            events.append((idx, 0, n.name, "def"))
-    events.sort()
+            events.append((idx, 0, n.name, "def", (n, n)))
+    events.sort(key=lambda e: e[:4])
     names: List[str] = []
     kinds: List[str] = []
-    for _, _, name, kind in events:
+    nodes: List[tuple] = []
+    for ev in events:
+        name, kind = ev[2], ev[3]
         if name in skip or name in declared or name == "_" or name in names:
             continue
         names.append(name)
         kinds.append(kind)
+        nodes.append(ev[4] if len(ev) > 4 else (None, None))
+    if _WANT_NODES:
+        return names, kinds, nodes
     return names, kinds
 
 
+_WANT_NODES = False
+
+
+def binding_signatures(fn: ast.AST, is_nested: bool) -> Tuple[List[str], List[str], List[str]]:
+    """(names, kinds, signatures): the signature of a name is the text of what its first binding binds it to, with every
+    local name of the scope masked - two spellings of the same local have the same signature"""
+    global _WANT_NODES
+    _WANT_NODES = True
+    try:
+        names, kinds, nodes = scope_bindings(fn, is_nested)
+    finally:
+        _WANT_NODES = False
+    local = set(names)
+
+    class Mask(ast.NodeTransformer):
+        def visit_Name(self, n):
+            return ast.copy_location(ast.Name(id="_", ctx=n.ctx), n) if n.id in local else n
+
+    def text(e):
+        import copy as _c
+        try:
+            return " ".join(ast.unparse(Mask().visit(_c.deepcopy(e))).split())
+        except Exception:
+            return "?"
+
+    def path(target, node):
+        if target is node:
+            return ""
+        if isinstance(target, (ast.Tuple, ast.List)):
+            for i, t in enumerate(target.elts):
+                r = path(t, node)
+                if r is not None:
+                    return f"[{i}]{r}"
+        if isinstance(target, ast.Starred):
+            r = path(target.value, node)
+            return None if r is None else "*" + r
+        return None
+    sigs: List[str] = []
+    for nm, kind, (n, p) in zip(names, kinds, nodes):
+        sig = kind
+        try:
+            if kind == "assign" and isinstance(p, (ast.Assign, ast.AnnAssign, ast.AugAssign, ast.NamedExpr)):
+                tg = p.targets[0] if isinstance(p, ast.Assign) else p.target
+                pos = path(tg, n) or ""
+                sig = f"assign{pos}:{text(p.value) if p.value is not None else ''}"
+            elif kind == "for" and isinstance(p, (ast.For, ast.AsyncFor)):
+                sig = f"for{path(p.target, n) or ''}:{text(p.iter)}"
+            elif kind == "comp" and isinstance(p, ast.comprehension):
+                sig = f"comp{path(p.target, n) or ''}:{text(p.iter)}"
+            elif kind == "with" and isinstance(p, (ast.With, ast.AsyncWith)):
+                for it in p.items:
+                    if it.optional_vars is not None and any(x is n for x in ast.walk(it.optional_vars)):
+                        sig = f"with:{text(it.context_expr)}"
+            elif kind == "except" and isinstance(n, ast.ExceptHandler):
+                sig = f"except:{text(n.type) if n.type is not None else ''}"
+            elif kind == "def":
+                sig = f"def:{len(n.args.args)}"
+            elif kind == "nparam":
+                sig = f"nparam:{names.index(nm)}"
+        except Exception:
+            pass
+        sigs.append(sig)
+    return names, kinds, sigs
+
+
 def describe(fn: ast.AST, is_nested: bool = False) -> dict:
-    names, kinds = scope_bindings(fn, is_nested)
-    d = {"names": names, "kinds": kinds}
+    names, kinds, sigs = binding_signatures(fn, is_nested)
+    d = {"names": names, "kinds": kinds, "sigs": sigs}
     nested = [describe(n, True) for n in nested_scopes(fn)]
     if nested:
         d["nested"] = nested
@@ -322,6 +392,28 @@ def _rename_scope(fn, ent: dict, is_nested: bool) -> bool:
         mapping = {a: b for a, b in zip(names, want) if a != b}
         used = {n.id for n in ast.walk(fn) if isinstance(n, ast.Name)} | {p for f in [fn] + [x for x in ast.walk(fn) if isinstance(x, FUNCS)] for p in _param_list(f)}
         if mapping and not any(t in used and t not in mapping for t in mapping.values()) and len(set(mapping.values())) == len(mapping):
+            r = _Renamer(mapping, fn)
+            if is_nested:
+                r._enter(fn)
+            else:
+                fn.body = [r.visit(s) for s in fn.body]
+            changed = True
+    elif names != want and ent.get("sigs"):
+        # locals were added or removed besides being renamed: align what can be aligned.  A name that exists on both
+        # sides stays; a name that exists only here is given the recorded name that exists only there when both are bound
+        # the same way to the same thing (same kind, same signature, unique on both sides)
+        cur_names, cur_kinds, cur_sigs = binding_signatures(fn, is_nested)
+        old_only = [(n, k, g) for n, k, g in zip(want, ent.get("kinds", []), ent.get("sigs", [])) if n not in cur_names]
+        new_only = [(n, k, g) for n, k, g in zip(cur_names, cur_kinds, cur_sigs) if n not in want]
+        mapping = {}
+        for n, k, g in new_only:
+            if g in ("assign", "for", "comp") or g.endswith(":") or sum(1 for x in new_only if x[1:] == (k, g)) != 1:
+                continue
+            cands = [o for o in old_only if o[1:] == (k, g)]
+            if len(cands) == 1:
+                mapping[n] = cands[0][0]
+        used = {n.id for n in ast.walk(fn) if isinstance(n, ast.Name)} | {p for f in [fn] + [x for x in ast.walk(fn) if isinstance(x, FUNCS)] for p in _param_list(f)}
+        if mapping and not any(t in used for t in mapping.values()) and len(set(mapping.values())) == len(mapping):
             r = _Renamer(mapping, fn)
             if is_nested:
                 r._enter(fn)
